@@ -26,11 +26,37 @@ var c01 = newChk("C01", "roundtrip",
 	func(rec *obs.Rec, c gen.V4Case) *obs.Fail {
 		p := c.Lib()
 		enc := p.ToBytes()
+		encCopy := append([]byte{}, enc...)
+		// history: other packets are encoded (and one decoded) between this encoding and its decoding — what
+		// ToBytes returned must stay what it was
+		other := c01Other(c)
+		_ = other.ToBytes()
+		if o2, err := dhcpv4.FromBytes(other.ToBytes()); err == nil {
+			_ = o2.ToBytes()
+		}
+		_ = p.ToBytes()
+		if !bytes.Equal(enc, encCopy) {
+			return obs.Failf("C01/encoding-changed-by-later-calls", "the bytes returned by ToBytes stay as returned", "changed at byte %d after encoding other packets", firstDiff(enc, encCopy))
+		}
 		q, err := dhcpv4.FromBytes(enc)
 		if err != nil {
 			return obs.Failf("C01/decode-error", "decoding of own encoding succeeds", "error %v (encoding %d bytes)", err, len(enc))
 		}
 		if f := cmpV4(c, q); f != nil {
+			return f
+		}
+		// decoding reads its input, it does not write to it; the same bytes decode to the same packet again, also
+		// after the first result has been overwritten in place (results share no memory with each other)
+		if !bytes.Equal(enc, encCopy) {
+			return obs.Failf("C01/decoder-wrote-to-its-input", "FromBytes leaves its input unchanged", "input changed at byte %d", firstDiff(enc, encCopy))
+		}
+		scribbleValue(q, 0xA5)
+		q2, err := dhcpv4.FromBytes(enc)
+		if err != nil {
+			return obs.Failf("C01/second-decode-error", "the same bytes decode again", "error %v", err)
+		}
+		if f := cmpV4(c, q2); f != nil {
+			f.Sig += "/second-decode"
 			return f
 		}
 		// classification
@@ -57,6 +83,24 @@ var c01 = newChk("C01", "roundtrip",
 		}
 		return nil
 	})
+
+// c01Other derives a different packet of at least 300 encoded bytes from the case (deterministically, so that a
+// replayed case sees the same history).
+func c01Other(c gen.V4Case) *dhcpv4.DHCPv4 {
+	o := c.Lib()
+	o.TransactionID[0] ^= 0xff
+	o.ClientHWAddr = net.HardwareAddr{0xde, 0xad, 0xbe, 0xef, 0, byte(len(c.Opts))}
+	o.YourIPAddr = net.IP{203, 0, 113, 77}
+	for k, v := range o.Options {
+		w := make([]byte, len(v))
+		for i := range v {
+			w[i] = ^v[i]
+		}
+		o.Options[k] = w
+	}
+	o.Options[250] = bytes.Repeat([]byte{0x5A}, 310)
+	return o
+}
 
 func ip4eq(lib net.IP, want [4]byte) bool {
 	if lib == nil {
